@@ -1,6 +1,107 @@
 import NpsVerif.Model.RunLength
-namespace Props.C15
+import NpsVerif.Gen.Bridge.rl_slice_bounds
+import NpsVerif.Props.C14Assumed
+import NpsVerif.Proofs.RLIndexSlice
+import NpsVerif.Proofs.RLIndexMask
+/-!
+# C15: indexing of run-length arrays (`RunLengthArray.__getitem__`)
+
+`decode` (the dense list) is the specification.  The proofs are in `NpsVerif/Proofs/RLIndex*.lean`;
+the generated kernel `Gen.Cur.rl_slice_bounds` is only reached through its bridge lemma.
+`C15_step_subset` / `C15_slice` use the C14 statements `C14_removeEmpty_decode` and
+`C14_joinRuns_decode` (see `NpsVerif/Props/C14Assumed.lean`); the others are self-contained.
+-/
 open Model Model.RLA
-/-- sanity instance; the universally quantified theorems are added as they are proved -/
+
+namespace Props.C15
+variable {α : Type}
+
+/-- sanity instance -/
 theorem decode_example : (RLA.mk [0, 2, 5, 6] [7, 8, 9]).decode = [7, 7, 8, 8, 8, 9] := by decide
+
+/-- integer indexing: the dense element for `-n ≤ i < n`, a refusal otherwise -/
+theorem C15_int (r : RLA α) (h : r.Valid) (i : Int) : r.getPosition i = Py.index r.decode i :=
+  Proofs.RLIndex.getPosition_eq r h i
+
+/-- integer list / array indexing (repeats, negatives; refused if any entry is out of range) -/
+theorem C15_list (r : RLA α) (h : r.Valid) (is : List Int) :
+    is.mapM r.getPosition = is.mapM (Py.index r.decode) := by
+  have : r.getPosition = Py.index r.decode := funext (C15_int r h)
+  rw [this]
+
+/-- sub-range extraction -/
+theorem C15_start_to_end (r : RLA α) (h : r.Valid) (s e : Nat) (hse : s < e) (he : e ≤ r.len) :
+    (RLA.mk (r.startToEnd s e).1 (r.startToEnd s e).2).Valid ∧
+    (RLA.mk (r.startToEnd s e).1 (r.startToEnd s e).2).decode = (r.decode.drop s).take (e - s) :=
+  ⟨Proofs.RLIndex.startToEnd_valid r h s e hse he, Proofs.RLIndex.startToEnd_decode r h s e hse he⟩
+
+/-- stride subsetting (incl. reversal for negative steps) -/
+theorem C15_step_subset (eq : α → α → Bool) (heq : ∀ x y, eq x y = true → x = y) (r : RLA α) (h : r.Valid)
+    (k : Int) (hk : k ≠ 0) :
+    (RLA.mk (r.stepSubset eq k).1 (r.stepSubset eq k).2).Valid ∧
+    (RLA.mk (r.stepSubset eq k).1 (r.stepSubset eq k).2).decode = Py.slice r.decode none none k :=
+  Proofs.RLIndex.stepSubset_spec eq heq r h k hk
+
+/-- HEADLINE: every slice (any start/stop incl. None, negative, beyond the ends; any step ≠ 0)
+is accepted and decodes to CPython's slice of the dense array, as a valid run-length array -/
+theorem C15_slice (eq : α → α → Bool) (heq : ∀ x y, eq x y = true → x = y) (r : RLA α) (h : r.Valid)
+    (a b k : Option Int) (hk : k ≠ some 0) :
+    ∃ r', r.getSlice eq a b k = some r' ∧ r'.Valid ∧ r'.decode = Py.slice r.decode a b (k.getD 1) :=
+  Proofs.RLIndex.getSlice_spec eq heq r h a b k hk
+
+/-- a zero step is refused -/
+theorem C15_slice_zero_step (eq : α → α → Bool) (r : RLA α) (a b : Option Int) :
+    r.getSlice eq a b (some 0) = none :=
+  Proofs.RLIndex.getSlice_zero_step eq r a b
+
+/-- windows: one sub-range per (start, stop) pair -/
+theorem C15_windows (r : RLA α) (h : r.Valid) (ss es : List Nat)
+    (hw : ∀ p ∈ ss.zip es, p.1 < p.2 ∧ p.2 ≤ r.len) :
+    (r.windows ss es).map (fun p => (RLA.mk p.1 p.2).decode) =
+      List.zipWith (fun s e => (r.decode.drop s).take (e - s)) ss es :=
+  Proofs.RLIndex.windows_decode r h ss es hw
+
+/-- boolean run-length mask: keeps, in order, exactly the cells whose mask is true -/
+theorem C15_rl_mask (r : RLA α) (h : r.Valid) (m : RLA Bool) (hm : m.Valid) (hl : m.len = r.len) :
+    ∃ r', r.getitemBool m = some r' ∧ r'.Valid ∧
+      r'.decode = (r.decode.zip m.decode).filterMap (fun p => if p.2 then some p.1 else none) :=
+  Proofs.RLIndex.getitemBool_spec r h m hm hl
+
+/-! ## concrete instances (`decide`, no axioms) -/
+
+/-- `[5,5,7,7,7,5,9]` as a run-length array -/
+def ex : RLA Nat := ⟨[0, 2, 5, 6, 7], [5, 7, 5, 9]⟩
+
+example : ex.validB = true := by decide
+example : ex.decode = [5, 5, 7, 7, 7, 5, 9] := by decide
+-- `a[:1:-2] = [9,7,7]`
+example : ex.getSlice (· == ·) none (some 1) (some (-2)) = some ⟨[0, 1, 3], [9, 7]⟩ := by decide
+example : (ex.getSlice (· == ·) none (some 1) (some (-2))).map decode = some [9, 7, 7] := by decide
+example : Py.slice ex.decode none (some 1) (-2) = [9, 7, 7] := by decide
+-- bounds beyond both ends, `a[-100:100]`
+example : (ex.getSlice (· == ·) (some (-100)) (some 100) none).map decode =
+    some [5, 5, 7, 7, 7, 5, 9] := by decide
+-- `a[3:100:3] = [7,9]`, `a[100:3:-3] = [9]`... checked against the specification
+example : (ex.getSlice (· == ·) (some 3) (some 100) (some 3)).map decode =
+    some (Py.slice ex.decode (some 3) (some 100) 3) := by decide
+example : (ex.getSlice (· == ·) (some 100) (some 3) (some (-3))).map decode = some [9] := by decide
+-- an empty range, `a[10:20]`, is the empty run-length array
+example : ex.getSlice (· == ·) (some 10) (some 20) none = some ⟨[0], []⟩ := by decide
+-- neighbouring runs with equal values are joined: `a[::5] = [5,5]`
+example : ex.getSlice (· == ·) none none (some 5) = some ⟨[0, 2], [5]⟩ := by decide
+example : ex.getSlice (· == ·) none none (some 0) = none := by decide
+-- integers
+example : ex.getPosition (-1) = some 9 := by decide
+example : ex.getPosition 4 = some 7 := by decide
+example : ex.getPosition 7 = none := by decide
+example : ex.getPosition (-8) = none := by decide
+example : [0, -7, 6].mapM ex.getPosition = some [5, 5, 9] := by decide
+example : [0, 7].mapM ex.getPosition = none := by decide
+-- sub-range and windows
+example : ex.startToEnd 1 6 = ([0, 1, 4, 5], [5, 7, 5]) := by decide
+example : (ex.windows [0, 4] [3, 7]).map (fun p => (RLA.mk p.1 p.2).decode) = [[5, 5, 7], [7, 5, 9]] := by decide
+-- run-length boolean mask `[T,F,F,T,T,T,F]`
+example : (ex.getitemBool ⟨[0, 1, 3, 6, 7], [true, false, true, false]⟩).map decode = some [5, 7, 7, 5] := by decide
+
 end Props.C15
+
